@@ -77,7 +77,9 @@ def _ax():
     fa([x, n], z3.Implies(z3.And(0 <= x, x <= 255), isb(s_rep(x, n))), [s_rep(x, n)])
     # upd
     fa([a, i, x], slen(s_upd(a, i, x)) == slen(a), [s_upd(a, i, x)])
-    fa([a, i, x, j], sat(s_upd(a, i, x), j) == z3.If(j == i, x, sat(a, j)),
+    # guarded: an update at an out-of-range index is the identity (otherwise two updates of the same
+    # sequence outside its range would be extensionally equal yet differ at that index)
+    fa([a, i, x, j], sat(s_upd(a, i, x), j) == z3.If(z3.And(j == i, 0 <= i, i < slen(a)), x, sat(a, j)),
        [sat(s_upd(a, i, x), j)])
     fa([a, i, x], z3.Implies(z3.And(isb(a), 0 <= x, x <= 255), isb(s_upd(a, i, x))),
        [s_upd(a, i, x)])
@@ -144,7 +146,22 @@ def _be_axioms():
     return A
 
 
-AXIOMS.extend(_be_axioms())
+BE_AXIOMS = _be_axioms()
+AXIOMS.extend(BE_AXIOMS)
+_BE_IDS = set(a.get_id() for a in BE_AXIOMS)
+_BE_SYMS = ('s_be', 's_val', 'pow256')
+
+
+def active_axioms(formulas):
+    """AXIOMS without the big-endian group when no formula mentions s_be / s_val / pow256 (the group only
+    constrains these three symbols; dropping axioms can only make fewer things provable).  Keeps the
+    quantifier load of unrelated obligations (and of the mbqi fallback) as before."""
+    acc, seen = set(), set()
+    for f in formulas:
+        _symbols(f, acc, seen)
+        if any(n in acc for n in _BE_SYMS):
+            return AXIOMS
+    return [a for a in AXIOMS if a.get_id() not in _BE_IDS]
 
 s_nonbyte = z3.Function('s_nonbyte', Seq, I)
 
@@ -221,6 +238,9 @@ def _has_var(e, cache):
     return r
 
 
+EXT_PARTIAL = set()     # names of functions whose ground Seq arguments are collected even from non-ground applications
+
+
 def ext_instances(formulas, funcs, limit=300):
     """Extensionality instances for registered uninterpreted functions over
     Seq: for every pair of ground applications f(.., a, ..), f(.., b, ..)
@@ -249,6 +269,12 @@ def ext_instances(formulas, funcs, limit=300):
             if nm in want and not _has_var(e, cache):
                 for pos in want[nm]:
                     found.setdefault((nm, pos), {})[e.arg(pos).get_id()] = e.arg(pos)
+            elif nm in want and nm in EXT_PARTIAL:
+                # opt-in: application under a quantifier (e.g. f(k, iv, p, j) with j bound) whose
+                # sequence argument itself is ground
+                for pos in want[nm]:
+                    if not _has_var(e.arg(pos), cache):
+                        found.setdefault((nm, pos), {})[e.arg(pos).get_id()] = e.arg(pos)
             for c in e.children():
                 walk(c)
     for f in formulas:
@@ -583,7 +609,7 @@ def solve(assumptions, goal, timeout_ms=10000, extra_axioms=(), want_model=True,
         sv = z3.Solver()
         if not mbqi:
             sv.set('smt.mbqi', False)
-        for a in AXIOMS:
+        for a in active_axioms(list(assumptions) + [goal] + list(extra_axioms)):
             sv.add(a)
         for a in extra_axioms:
             sv.add(a)
@@ -591,13 +617,22 @@ def solve(assumptions, goal, timeout_ms=10000, extra_axioms=(), want_model=True,
             sv.add(a)
         sv.add(z3.Not(goal))
         return sv
-    stages = [(False, min(timeout_ms, 3000)), (True, min(timeout_ms, 6000)), (False, timeout_ms)]
+    # The slices are z3 RESOURCE limits (rlimit, deterministic: about 1-2.5 million units per second on this
+    # machine), not wall-clock times, so that a verdict cannot flip because the machine is busy; the wall-clock
+    # timeout is only a distant safety net.  timeout_ms scales the limits (120 s == factor 1).
+    f = max(0.25, timeout_ms / 120000.0)
+    stages = [(False, int(4e6 * f)), (True, int(1.5e7 * f)), (False, int(6e7 * f)), (True, int(2e8 * f))]
+    wall_ms = int(max(900000, 8 * timeout_ms))
     total = 0.0
     cand = None
     reason = None
     last = None
-    for (mbqi, tmo) in stages:
-        r, sv, dt = check_trusted(lambda: mk(mbqi), tmo)
+    for (mbqi, rl) in stages:
+        def mk_rl(mbqi=mbqi, rl=rl):
+            sv = mk(mbqi)
+            sv.set('rlimit', rl)
+            return sv
+        r, sv, dt = check_trusted(mk_rl, wall_ms)
         total += dt
         STATS['z3_queries'] += 1
         STATS['z3_s'] += dt
@@ -668,18 +703,20 @@ def _cvc5(solver, timeout_ms):
     return out if out in ('sat', 'unsat') else 'unknown'
 
 
-def feasible(assumptions, timeout_ms=300):
+def feasible(assumptions, timeout_ms=300, rlimit=None):
     """Quick satisfiability pre-check used only for pruning paths: returns
     False only on a definite unsat."""
     def mk():
         s = z3.Solver()
         s.set('smt.mbqi', False)
-        for a in AXIOMS:
+        for a in active_axioms(assumptions):
             s.add(a)
         for a in assumptions:
             s.add(a)
+        # deterministic resource limit (about 0.3 s at 300 ms): which paths are pruned must not depend on load
+        s.set('rlimit', int((rlimit or 1500 * timeout_ms)))
         return s
-    r, _, dt = check_trusted(mk, timeout_ms)
+    r, _, dt = check_trusted(mk, max(20 * timeout_ms, 20000))
     STATS['z3_queries'] += 1
     STATS['z3_s'] += dt
     return r != z3.unsat
